@@ -43,7 +43,7 @@ def main():
     ]
     if c.setup():
         for label, kw in configs(c.tier):
-            c.run(label, 'rsym.he', 'ErrorFaithful', kw, required_witnesses=('Ok', 'Err:QuickXmlError', 'Err:FromUtf8Error') + (('Err:AttrError',) if kw.get('attrs') else ()), time_cap=200 if c.tier == 'quick' else 900)
+            c.run(label, 'rsym.he', 'ErrorFaithful', kw, required_witnesses=('Ok', 'Err:QuickXmlError', 'Err:FromUtf8Error') + (('Err:AttrError',) if kw.get('attrs') else ()), time_cap=600 if c.tier == 'quick' else 900)
         native_cross_check(c, 300 if c.tier == 'quick' else 3000)
     c.finish(bounds={'scripts': [l for l, _ in configs(c.tier)]}, outside=['scripts longer than the bound', 'bytes -> events (quick_xml)'],
              trusted=['rsym + reader event model', 'z3', 'tools/replay'],
